@@ -261,6 +261,12 @@ func (h *SexpHash) TypeCheckField(key Sexp, val Sexp) error {
 		keySym = ks
 		wasSym = true
 	default:
+		// the fields of a declared struct are named by symbols; any other
+		// key would add a member the declaration does not have.
+		if p := h.GoStructFactory; p != nil && p.UserStructDefn != nil &&
+			p.UserStructDefn.FieldType != nil && h.TypeName != "hash" && h.TypeName != "field" {
+			return fmt.Errorf("%s has no field '%s' [err 3]", p.UserStructDefn.Name, key.SexpString(nil))
+		}
 		return KeyNotSymbol
 	}
 	p := h.GoStructFactory
